@@ -3,10 +3,13 @@
      - the bit array is an N (bit i of the number = bit index i of the array; little-endian bytes, as bit_array_ops addresses them);
      - capacity is rounded up to a multiple of 64;  index_i = (((h0 + i*h1) mod 2^64) >> 1) mod capacity, i = 1..num_hashes;
      - every filter object caches (num_bits_set_, is_dirty_); is_empty() = !dirty && count == 0 short-circuits query();
-     - internal_update only sets is_dirty_ (it never touches the count stored in wrapped memory);
-     - internal_query_and_update calls update_num_bits_set(count + inc) for every hash, which CLEARS is_dirty_ and writes the
-       cached count through to wrapped memory;
-     - union_with / intersect / invert do not look at is_read_only_;
+     - internal_update sets is_dirty_ and writes DIRTY_BITS_VALUE to the count stored in wrapped memory
+       (fixes/15_bloom_update_marks_memory_dirty.patch; before the repair it never touched the stored count);
+     - internal_query_and_update calls update_num_bits_set(count + inc) for every hash while the cached count is clean, which
+       writes the cached count through to wrapped memory; while is_dirty_ is set the count is left alone
+       (fixes/15_bloom_qau_keeps_dirty.patch; before the repair the stale count was stored and is_dirty_ cleared);
+     - union_with / intersect / invert refuse read-only filters (fixes/15_bloom_readonly_setops_refused.patch; before the
+       repair they did not look at is_read_only_);
      - filters in caller memory (builder::initialize_*, wrap, writable_wrap) are VIEWS of a buffer register: the 32-byte header,
        the stored count at byte 24 and the bit array at byte 32 live in the shared buffer, several views may alias one buffer.
    The hash function is a parameter [H] of the whole model (h0 = H item seed, h1 = H item h0); the instance used for the
@@ -86,11 +89,12 @@ Definition memw_of (f : filt) (c : N) : option N :=
   end.
 Definition upd_cnt (f : filt) (bits c : N) : eff := mkE (f_cache f false c) bits (memw_of f c).
 
-(* The switch [fx] selects the REPAIRED behaviour proposed for the three defects recorded for C15 (known_findings.json):
-     fx = false  the code as it is (this is what the correspondence runs use);
-     fx = true   (A) internal_update also writes DIRTY_BITS_VALUE to the count stored in wrapped memory,
+(* The switch [fx] selects between the code before and after the three repairs fixes/15_*.patch:
+     fx = true   the REPAIRED code (this is what [step]/[run] below use, i.e. what is extracted and run against /repo):
+                 (A) internal_update also writes DIRTY_BITS_VALUE to the count stored in wrapped memory,
                  (B) internal_query_and_update leaves the count alone while is_dirty_ is set,
-                 (D) union_with / intersect / invert refuse read-only filters. *)
+                 (D) union_with / intersect / invert refuse read-only filters;
+     fx = false  the code before the repairs, kept as a variant for the refutations in Regression_bloom.v. *)
 Section Core.
   Variable fx : bool.
 
@@ -296,6 +300,7 @@ Inductive wop :=
 | OWrap (r b : Z) (writable : bool)
 | OCopy (r2 r : Z) (variant : Z)
 | ODrop (r : Z)
+| ODumpBuf (b : Z)
 | OBad.
 
 Definition bits_of (w : world) (f : filt) : N :=
@@ -400,7 +405,7 @@ Definition ghost_clear (bs : list (Z * bent)) (fe : fent) (f' : filt) (code : Z)
 (* ------------------------------------------------------------------ *)
 
 Section WithHash.
-  Variable fx : bool.                        (* false: the code as it is; true: with the three proposed repairs *)
+  Variable fx : bool.                        (* true: the repaired code; false: the code before the three repairs *)
   Variable H : list N -> N -> N.             (* ANY hash function: h0 = H item seed, h1 = H item h0 *)
 
   Definition indices_of (f : filt) (x : item) : list N :=
@@ -609,6 +614,11 @@ Section WithHash.
         | None => (w, rfs)
         end
     | ODrop r => (mkW (reg_del fs r) bs, (ok, []))
+    | ODumpBuf b =>                              (* the bytes of a memory block: serialized images and wrapped memory *)
+        match reg_get bs b with
+        | Some be => (w, (map Nz (b_data be), []))
+        | None => (w, rfs)
+        end
     | OBad => (w, ([-2], []))
     end.
 End WithHash.
@@ -638,6 +648,7 @@ Definition decode (o e : line) : wop :=
   | 17 :: r :: b :: _ => OWrap r b true
   | 18 :: r2 :: r :: v :: _ => OCopy r2 r v
   | 19 :: r :: _ => ODrop r
+  | 20 :: b :: _ => ODumpBuf b
   (* builder::create_by_accuracy / initialize_by_accuracy: the suggested size and hash count pass through libm in the
      implementation, the harness reports them (E line) and the model takes them as inputs *)
   | 21 :: r :: _ :: _ :: seed :: _ =>
@@ -653,9 +664,9 @@ Definition decode (o e : line) : wop :=
   | _ => OBad
   end.
 
-Definition step (w : world) (o e : line) : world * outline := wstep false xxh64 w (decode o e).
+Definition step (w : world) (o e : line) : world * outline := wstep true xxh64 w (decode o e).
 Definition run (ops : list opline) : list outline := run_case step (mkW [] []) ops.
 
-(* the same protocol over the REPAIRED model; to be used for the correspondence once the repairs are applied to the code *)
-Definition step_fixed (w : world) (o e : line) : world * outline := wstep true xxh64 w (decode o e).
-Definition run_fixed (ops : list opline) : list outline := run_case step_fixed (mkW [] []) ops.
+(* the same protocol over the code BEFORE the repairs (Regression_bloom.v) *)
+Definition step_old (w : world) (o e : line) : world * outline := wstep false xxh64 w (decode o e).
+Definition run_old (ops : list opline) : list outline := run_case step_old (mkW [] []) ops.
